@@ -207,8 +207,12 @@ pub fn machinery(msg: &str) -> ! {
 }
 
 /// Run `f` under catch_unwind with the panic message captured.
+thread_local! { static GUARD_DEPTH: std::cell::Cell<u32> = const { std::cell::Cell::new(0) }; }
 pub fn guarded<R>(f: impl FnOnce() -> R) -> Result<R, String> {
-    match std::panic::catch_unwind(std::panic::AssertUnwindSafe(f)) {
+    GUARD_DEPTH.with(|d| d.set(d.get() + 1));
+    let r = std::panic::catch_unwind(std::panic::AssertUnwindSafe(f));
+    GUARD_DEPTH.with(|d| d.set(d.get() - 1));
+    match r {
         Ok(r) => Ok(r),
         Err(e) => Err(if let Some(s) = e.downcast_ref::<String>() {
             s.clone()
@@ -222,7 +226,11 @@ pub fn guarded<R>(f: impl FnOnce() -> R) -> Result<R, String> {
 
 /// Silence the default panic hook (panics are expected outcomes of probes).
 pub fn quiet_panics() {
-    std::panic::set_hook(Box::new(|_| {}));
+    std::panic::set_hook(Box::new(|info| {
+        if GUARD_DEPTH.with(|d| d.get()) == 0 {
+            eprintln!("MACHINERY: harness panic: {info}");
+        }
+    }));
 }
 
 /// A concurrent set of 128-bit digests, sharded.
